@@ -10,12 +10,17 @@ Line protocol for C05.
   {"op":"placement", <engine fields; "init" = positions before the call>, "maxForce":r,"point":[…],"g":g,
       "excl":[…],"prev":g|null,"step":r,"tol":r,"ftol":r,"grid_point":[…]|null}
                                                                   -> Engine.placementSpec (the statement of C05)
+  {"op":"trials", … as "update" …}                                -> Engine.updateTrials (the trials of update_positions:
+                                                                     tried vectors in order, how the loop ends)
+  {"op":"unit_check","vectors":[[…],…],"eps":r}                   -> |‖v‖² − 1| ≤ eps for every vector (norm_sphere)
+  {"op":"uvect","v":[…],"n":r}                                    -> Engine.uVectWith (_u_vect with the norm supplied)
 null for a walk parameter / floor / T means: the translated constant of the current /repo source.
 -/
 import PolyplyVerif.Driver.Common
 import PolyplyVerif.Driver.C16
 import PolyplyVerif.Generated.EngineTables
 import PolyplyVerif.Model.Engine
+import PolyplyVerif.Model.EngineTrials
 open Lean PolyplyVerif PolyplyVerif.Geometry PolyplyVerif.Engine
 open PolyplyVerif.Driver.C16 (v3OfJson v3ToJson optV3OfJson optV3ToJson natList forceToJson optField paramsOfJson
   initOfJson snapToJson)
@@ -83,6 +88,46 @@ def handle (j : Json) : Except String Json := do
                                    ("snap", snapToJson P s)])
     | some (np, s') => pure (Driver.okJson [("point", v3ToJson np), ("step", Driver.ratToJson (stepLength P W prev cur)),
                                             ("snap", snapToJson P s')])
+  | "trials" =>
+    let P ← paramsOfJson j
+    let pos0 ← initOfJson P.n (← j.getObjVal? "init")
+    let W ← walkOfJson j
+    let bundle ← v3List (← j.getObjVal? "bundle")
+    let choices ← natList (← j.getObjVal? "choices")
+    let cur ← (← j.getObjVal? "cur").getNat?
+    let prev ← (← j.getObjVal? "prev").getNat?
+    let excl ← natList (← j.getObjVal? "excl")
+    let pre ← match optField j "pre" with
+      | some v => do
+        let arr ← v.getArr?
+        arr.toList.mapM fun e => do
+          let g ← (← e.getArrVal? 0).getNat?
+          let p ← v3OfJson (← e.getArrVal? 1)
+          let st ← (← e.getArrVal? 2).getBool?
+          pure (g, p, st)
+      | none => pure []
+    let s := pre.foldl (fun s (e : Nat × V3 × Bool) => add P s e.1 e.2.1 e.2.2) (build P pos0)
+    match updateTrials P W s (fun _ => true) bundle choices cur prev excl with
+    | none => pure (Driver.errJson "prev has no position")
+    | some log =>
+      let stop := match log.stop with
+        | .accepted _ => "accepted"
+        | .maxiter => "maxiter"
+        | .emptyBundle => "empty-bundle"
+        | .noChoice => "no-choice"
+      pure (Driver.okJson [("tried", Json.arr (log.tried.map v3ToJson).toArray), ("ntried", toJson log.tried.length),
+                           ("stop", Json.str stop),
+                           ("bound", toJson (min (W.maxiter + 1) bundle.length))])
+  | "unit_check" =>
+    let vs ← v3List (← j.getObjVal? "vectors")
+    let eps ← Driver.ratOfJson (← j.getObjVal? "eps")
+    let bad := (vs.zipIdx.filter fun (v, _) => !(decide (rabs (v.normSq - 1) ≤ eps))).map (·.2)
+    pure (Driver.okJson [("n", toJson vs.length), ("bad", toJson bad)])
+  | "uvect" =>
+    let v ← v3OfJson (← j.getObjVal? "v")
+    let n ← Driver.ratOfJson (← j.getObjVal? "n")
+    pure (Driver.okJson [("unit", v3ToJson (uVectWith v n)), ("norm_ok", Json.bool (n * n == v.normSq && n != 0)),
+                         ("unit_normsq", Driver.ratToJson (uVectWith v n).normSq)])
   | "start" =>
     let P ← paramsOfJson j
     let pos0 ← initOfJson P.n (← j.getObjVal? "init")
